@@ -1827,6 +1827,8 @@ def evaluate__round(self: XPathFunction, context: ta.ContextType = None) \
         return arg
 
     precision: int = self.get_argument(context, index=1, default=0, cls=int)
+    if isinstance(arg, int):
+        arg = int(arg)  # a derived integer type is promoted to xs:integer (xs:byte(127) rounds to 130)
     try:
         number = decimal.Decimal(arg)
         exponent = decimal.Decimal(1).scaleb(-precision)
